@@ -547,6 +547,11 @@ func (o *GeomOpts) pt(r *R) geom.Point {
 	if o.Point != nil {
 		return o.Point(r)
 	}
+	if r.Chance(0.05) {
+		// the same value in both ordinates (special values are then special in both)
+		v := o.Coord(r)
+		return geom.Point{X: v, Y: v}
+	}
 	return geom.Point{X: o.Coord(r), Y: o.Coord(r)}
 }
 
@@ -646,7 +651,12 @@ func BitsCoord(r *R) float64 {
 	case 1:
 		return math.Inf(1 - 2*r.Intn(2))
 	case 2:
-		// NaN with payload (quiet or signalling)
+		// NaN: the canonical patterns other software writes (IEEE default quiet NaN - also the
+		// PostGIS/GEOS "empty point" marker -, Go's math.NaN, the x86 default NaN, a signalling
+		// NaN), or a random payload (quiet or signalling)
+		if r.Bool() {
+			return math.Float64frombits([]uint64{0x7ff8000000000000, 0x7ff8000000000001, 0xfff8000000000000, 0x7ff0000000000001}[r.Intn(4)])
+		}
 		return math.Float64frombits(0x7ff0000000000000 | (r.Uint64() & 0x000fffffffffffff) | 1 | (uint64(r.Intn(2)) << 63))
 	case 3:
 		return math.Float64frombits(r.Uint64() & 0x000fffffffffffff) // subnormal
@@ -665,7 +675,21 @@ func BitsCoord(r *R) float64 {
 func FiniteBitsCoord(r *R) float64 {
 	for {
 		var f float64
-		switch r.Intn(11) {
+		switch r.Intn(13) {
+		case 11:
+			// fixed-point data scaled by multiplication (degrees stored as 1e-7 / 1e-6 / 1e-5 units,
+			// millimetres as 1e-3): float64(n)*1e-k is often the NEIGHBOUR of the double nearest
+			// to the decimal n/10^k, so its shortest decimal spelling is a long one
+			k := []float64{1e-7, 1e-7, 1e-6, 1e-5, 1e-3, 1e-2, 1e-9}[r.Intn(7)]
+			n := r.IntRange(-2147483647, 2147483647)
+			if r.Bool() {
+				n = r.IntRange(-1800000000, 1800000000)
+			}
+			f = float64(n) * k
+		case 12:
+			// the doubles next to a short decimal (1-7 places)
+			d := math.Round(r.Range(-215, 215)*math.Pow(10, float64(r.IntRange(1, 7)))) / math.Pow(10, float64(r.IntRange(1, 7)))
+			f = math.Nextafter(d, math.Inf(1-2*r.Intn(2)))
 		case 0:
 			f = math.Copysign(0, -1)
 		case 1:
@@ -705,4 +729,130 @@ func SortedCopy(xs []float64) []float64 {
 	o := append([]float64(nil), xs...)
 	sort.Float64s(o)
 	return o
+}
+
+// Arena is a geometry whose paths are consecutive sub-slices of ONE backing
+// array (ring k is buf[off:off+n], so its spare capacity is the storage of the
+// rings that follow), followed by a few sentinel slots. This is how rings look
+// when they are sliced out of a flat coordinate buffer; code that appends to a
+// path it was handed writes into the next path.
+type Arena struct {
+	G    geom.Geom
+	buf  []geom.Point
+	orig []geom.Point
+}
+
+// InArena returns a copy of g laid out in one backing array.
+func InArena(g geom.Geom) *Arena {
+	n := len(Flatten(g))
+	a := &Arena{buf: make([]geom.Point, n+4)}
+	for i := n; i < n+4; i++ {
+		a.buf[i] = geom.Point{X: 7.25e11 + float64(i-n), Y: -3.5e11}
+	}
+	off := 0
+	cp := func(p []geom.Point) []geom.Point {
+		if p == nil {
+			return nil
+		}
+		o := a.buf[off : off+len(p)]
+		copy(o, p)
+		off += len(p)
+		return o
+	}
+	var lay func(g geom.Geom) geom.Geom
+	lay = func(g geom.Geom) geom.Geom {
+		switch t := g.(type) {
+		case geom.MultiPoint:
+			return geom.MultiPoint(cp(t))
+		case geom.LineString:
+			return geom.LineString(cp(t))
+		case geom.MultiLineString:
+			if t == nil {
+				return t
+			}
+			o := make(geom.MultiLineString, len(t))
+			for i := range t {
+				o[i] = cp(t[i])
+			}
+			return o
+		case geom.Polygon:
+			if t == nil {
+				return t
+			}
+			o := make(geom.Polygon, len(t))
+			for i := range t {
+				o[i] = cp(t[i])
+			}
+			return o
+		case geom.MultiPolygon:
+			if t == nil {
+				return t
+			}
+			o := make(geom.MultiPolygon, len(t))
+			for i := range t {
+				o[i] = lay(t[i]).(geom.Polygon)
+			}
+			return o
+		case geom.GeometryCollection:
+			if t == nil {
+				return t
+			}
+			o := make(geom.GeometryCollection, len(t))
+			for i := range t {
+				o[i] = lay(t[i])
+			}
+			return o
+		}
+		return DeepCopy(g)
+	}
+	a.G = lay(g)
+	a.orig = append([]geom.Point{}, a.buf...)
+	return a
+}
+
+// Intact reports whether the backing array (paths and sentinels) is unchanged.
+func (a *Arena) Intact() (bool, string) {
+	for i := range a.buf {
+		if !BitsEqual(a.buf[i], a.orig[i]) {
+			return false, fmt.Sprintf("slot %d of the shared backing array changed from %s to %s", i, PtStr(a.orig[i]), PtStr(a.buf[i]))
+		}
+	}
+	return true, ""
+}
+
+// BigLens are path lengths on both sides of the sizes at which implementations
+// typically switch strategy (chunked reads, worker pools, pooled buffers).
+var BigLens = []int{63, 64, 65, 255, 256, 257, 1023, 1025, 4095, 4096, 4097, 4098, 4099, 5001, 8191, 8193, 10002, 16385, 65537}
+
+// BigLen draws one of BigLens, the smaller ones more often.
+func BigLen(r *R) int {
+	if r.Chance(0.5) {
+		return BigLens[r.Intn(8)]
+	}
+	return BigLens[r.Intn(len(BigLens))]
+}
+
+// EdgePos draws a position in a path of n vertices that is likely to sit next
+// to a chunk boundary: the first and last few, and around n/4, n/2, 3n/4.
+func EdgePos(r *R, n int) int {
+	var k int
+	switch r.Intn(6) {
+	case 0:
+		k = r.Intn(4)
+	case 1, 2:
+		k = n - 1 - r.Intn(4)
+	case 3:
+		k = []int{n / 4, n / 2, 3 * n / 4}[r.Intn(3)] + r.IntRange(-2, 1)
+	case 4:
+		k = []int{64, 256, 1024, 4096, 8192}[r.Intn(5)] + r.IntRange(-2, 1)
+	default:
+		k = r.Intn(n)
+	}
+	if k < 0 {
+		k = 0
+	}
+	if k >= n {
+		k = n - 1
+	}
+	return k
 }
